@@ -33,3 +33,10 @@ VARIANTS += [
     M('C14', 'refactor-header-skipped-by-copy', E(RX, "    if skip_header:\n        strings = strings[1:]\n", "    if skip_header:\n        strings = list(strings)\n        del strings[0]\n"), kind='refactor'),
     M('C14', 'refactor-observed-categories', E(RX, "        strings.extend(list(c.dropna().unique()))", "        strings.extend(list(c.cat.remove_unused_categories().cat.categories if c.dtype.name == 'category' else c.dropna().unique()))"), kind='refactor'),
 ]
+
+VARIANTS += [
+    M('C14', 'category-table-memo-forgets-escaping-option', [E(RX, "class Fragment(namedtuple('Fragment', 're group')):", "category_sets = {}\ndef categories_for(extra_letters=None, full_escape=False, dialect=None):\n    key = (extra_letters or '', dialect)\n    cats = category_sets.get(key)\n    if cats is None:\n        cats = Categories(extra_letters, full_escape=full_escape,\n                          dialect=dialect)\n        category_sets[key] = cats\n    return cats\n\n\nclass Fragment(namedtuple('Fragment', 're group')):")],
+      rule='C14-MEMO', key='categories_for'),
+    M('C14', 'refactor-category-table-memo-complete-key', [E(RX, "class Fragment(namedtuple('Fragment', 're group')):", "category_sets = {}\ndef categories_for(extra_letters=None, full_escape=False, dialect=None):\n    key = (extra_letters or '', bool(full_escape), dialect)\n    cats = category_sets.get(key)\n    if cats is None:\n        cats = Categories(extra_letters, full_escape=full_escape,\n                          dialect=dialect)\n        category_sets[key] = cats\n    return cats\n\n\nclass Fragment(namedtuple('Fragment', 're group')):")],
+      kind='refactor'),
+]
